@@ -237,7 +237,7 @@ def evaluate_program(prog, stt, runner, workdir):
         return fails
     c = gen_ssb.case_from_compiled(api)
     if c is not None and (gen_ssb.foreign_targets_not_locally_reachable(c) or gen_ssb.call_target_only_reachable_by_call(c)
-                          or gen_ssb.degenerate_branch_in_loop(c) or gen_ssb.case_jumps_backward_or_into_chain(c) or gen_ssb.inexpressible_case_ops(c)
+                          or gen_ssb.degenerate_branch_in_loop(c) or gen_ssb.call_on_cycle(c) or gen_ssb.case_jumps_backward_or_into_chain(c) or gen_ssb.inexpressible_case_ops(c)
                           or not gen_ssb.well_formed(c)[0]):
         stt.excluded_known += 1
         return fails
